@@ -132,6 +132,34 @@ ReportRep(ev, v) ==
       bad == {k \in DOMAIN want : r[k] # want[k]}
   IN Chk(bad = {}, ev, "report", "verdict", PropsFor({"C15"}, v), [k \in bad |-> want[k]], [k \in bad |-> r[k]])
 
+\* ---- drop-in compatibility with the standard library and pkg/errors (C14):
+\* relations between the recorded results of both sides
+ReportStd(ev, v, sl, own) ==
+  LET s == ev.obs.std
+      o == ev.obs
+      badIs == IF Len(s.is) # Len(o.is) THEN {0} ELSE {j \in 1..Len(s.is) : s.is[j] = "T" /\ o.is[j] # "T"}
+      noCauseOnly == \A i \in 1..Len(VisNodes(v)) : VisNodes(v)[i].ty \notin CauseOnlyTy
+      badAs == {k \in 1..Len(s.as) :
+                  LET a == s.as[k] IN
+                  \/ a[1] = -9 \/ a[2] = -9 \/ a[1] = 0 \/ a[2] = 0
+                  \* full agreement where every layer exposes Unwrap; below a layer that
+                  \* only exposes Cause() the library may find an earlier match
+                  \/ (noCauseOnly /\ (a[1] # a[2] \/ (a[1] >= 1 /\ a[3] # 1)))
+                  \/ (a[1] >= 1 /\ ~(a[2] >= 1 /\ a[2] <= a[1]))}
+      badUnw == (v.ty \notin CauseOnlyTy /\ ~s.unwrapEq) \/ (IsMulti(v) /\ ~(s.stdUnwNil /\ s.libUnwNil))
+      allCause == \A i \in 1..Len(Chain(v)) : Chain(v)[i].ty \notin NoCauseTy
+      badCause == ~s.causeEq \/ (allCause /\ s.pkgRoot # s.libRoot)
+      \* the value's own nodes, as the standard library can reach them, are recognized by it
+      off == Len(Concat([i \in 1..(ev.step.dst - 1) |-> AllNodes(sl[i])]))
+      flags == StdVisFlags(v, TRUE)
+      badOwn == IF ~own THEN {} ELSE {k \in 1..Len(flags) : flags[k] /\ (off + k > Len(s.is) \/ s.is[off + k] # "T")}
+  IN
+  /\ Chk(badIs = {}, ev, "std.is", "verdict", {"C14"}, {}, badIs)
+  /\ Chk(badAs = {}, ev, "std.as", "verdict", {"C14"}, {}, [k \in badAs |-> s.as[k]])
+  /\ Chk(~badUnw, ev, "std.unwrap", "verdict", {"C14"}, TRUE, [eq |-> s.unwrapEq, std |-> s.stdUnwNil, lib |-> s.libUnwNil])
+  /\ Chk(~badCause, ev, "std.cause", "verdict", {"C14"}, TRUE, [pkg |-> s.pkgRoot, lib |-> s.libRoot, eq |-> s.causeEq])
+  /\ Chk(badOwn = {}, ev, "std.own", "verdict", {"C14"}, {}, badOwn)
+
 \* ---- constructor steps: recorded vs ideal (= model: constructors have no deviation)
 ReportBuild(ev, new, tn) ==
   LET st == ev.step
@@ -143,6 +171,7 @@ ReportBuild(ev, new, tn) ==
   /\ IF o.nil \/ IsNil(v) THEN TRUE
      ELSE
      /\ ReportOuts(ev, v, tn)
+     /\ IF tn.dv THEN TRUE ELSE ReportStd(ev, v, new, TRUE)
      /\ IF "fmt" \in DOMAIN o THEN ReportFmt(ev, v, tn) /\ ReportRep(ev, v) ELSE TRUE
      \* text is predicted for regular strings only (C10); otherwise conformance
      /\ IF tn.h \/ tn.dv THEN TRUE
@@ -207,6 +236,7 @@ ReportHop(ev, base, new, tn) ==
   /\ IF o.nil \/ IsNil(v) \/ p.nil THEN TRUE
      ELSE
      /\ ReportOuts(ev, v, tn)
+     /\ IF tn.dv THEN TRUE ELSE ReportStd(ev, v, base, FALSE)
      /\ IF "fmt" \in DOMAIN o /\ ~tn.dv THEN ReportFmt(ev, v, tn) /\ ReportRep(ev, v) ELSE TRUE
      /\ LET sites == IF tn.h \/ tn.dv THEN {} ELSE DiffSites(p.tree, o.tree) IN
         IF sites = {} THEN TRUE
@@ -308,6 +338,26 @@ ReportStack(ev) ==
      Chk((IF row.kind = "stack" THEN o.frame ELSE o.domain) = (IF row.kind = "stack" THEN code ELSE PkgOf(code)),
          ev, "stack.table", "conf", {}, code, o)
 
+\* ---- through the gRPC interceptors (C20): relation between the error received
+\* through the real interceptors and the same error transferred directly (both
+\* recorded), and the status code visible to callers
+CodeNum(a) == IF a = <<>> THEN 2 ELSE CASE a[1] = "n5" -> 5 [] a[1] = "n404" -> 404 [] OTHER -> 2
+ReportGrpc(ev, base, new) ==
+  LET st == ev.step
+      e == base[st.src[1]]
+      v == new[st.dst]
+      o == ev.obs
+      g == o.grpc
+      wantCode == IF IsNil(e) THEN 0 ELSE IF e.ty = "grpcStatus" THEN 5 ELSE CodeNum(CodeOf(e, "withGrpcCode"))
+      bad == {f \in {"treeEq", "accEq", "isEq", "verboseEq", "safeEq", "nilEq"} : ~g[f]}
+  IN
+  /\ Chk(o.panic = "", ev, "grpc.panic", "verdict", {"C20"}, "", o.panic)
+  /\ IF bad = {} THEN TRUE ELSE MisS(ev, "grpc.equal", "verdict", {"C20"}, bad, {}, bad)
+  /\ Chk(g.rawCode = wantCode, ev, "grpc.code", "verdict", {"C20"}, wantCode, g.rawCode)
+  /\ Chk(o.nil = IsNil(v), ev, "nil", "conf", {}, IsNil(v), o.nil)
+  /\ IF o.nil \/ IsNil(v) THEN TRUE
+     ELSE Chk(o.tree = TreeOf(v, reg), ev, "tree", "conf", {}, TreeOf(v, reg), o.tree)
+
 \* ---- type renames across code versions (C17)
 ReportMig(ev, r) ==
   LET st == ev.step o == ev.obs.mig IN
@@ -349,6 +399,7 @@ TNext ==
         /\ procs' = pbase
         /\ taint' = [tbase EXCEPT ![st.dst] = [tn EXCEPT !.dv = tn.dv \/ diverged]]
         /\ IF st.op = "Hop" THEN ReportHop(ev, base, new, tn)
+           ELSE IF st.op = "Grpc" THEN ReportGrpc(ev, base, new)
            ELSE IF st.op \in {"DecodeFault", "DecodeFuzz"} THEN ReportFault(ev)
            ELSE IF st.op = "StackCall" THEN ReportStack(ev)
            ELSE ReportBuild(ev, new, tn)
